@@ -52,8 +52,11 @@ type Subscription struct {
 	eventQueue      []*rescache.ResourceEvent
 	access          *rescache.Access
 	accessCallbacks []func(*rescache.Access)
-	flags           uint8
-	throttle        *rescache.Throttle
+	// accessEpoch is increased each time the access is invalidated. A
+	// response to an access request sent in an earlier epoch is outdated.
+	accessEpoch uint
+	flags       uint8
+	throttle    *rescache.Throttle
 	// reaccessThrottle is the throttle of a reaccess deferred by flagReaccess
 	reaccessThrottle *rescache.Throttle
 
@@ -834,6 +837,7 @@ func (s *Subscription) processModelEvent(event *rescache.ResourceEvent) {
 
 func (s *Subscription) handleReaccess(t *rescache.Throttle) {
 	s.access = nil
+	s.accessEpoch++
 	s.flags &= ^flagReaccess
 
 	if s.direct == 0 {
@@ -949,6 +953,7 @@ func (s *Subscription) reaccess(t *rescache.Throttle) {
 		// The cached access is no longer valid, even though the new access
 		// check is deferred until the queued events are released.
 		s.access = nil
+		s.accessEpoch++
 		s.flags |= flagReaccess
 		if t != nil {
 			s.reaccessThrottle = t
@@ -981,6 +986,7 @@ func (s *Subscription) loadAccess(cb func(*rescache.Access), t *rescache.Throttl
 	}
 
 	s.flags |= flagAccessCalled
+	epoch := s.accessEpoch
 
 	if t != nil {
 		t.Add(func() {
@@ -992,6 +998,15 @@ func (s *Subscription) loadAccess(cb func(*rescache.Access), t *rescache.Throttl
 
 					cbs := s.accessCallbacks
 					s.flags &= ^flagAccessCalled
+					// The access was invalidated after the request was sent:
+					// ask again, with the current token.
+					if epoch != s.accessEpoch {
+						s.accessCallbacks = nil
+						for _, cb := range cbs {
+							s.loadAccess(cb, t)
+						}
+						return
+					}
 					// Only store in case of an actual result or system.accessDenied error,
 					// and never for a subscription that failed to load.
 					if s.err == nil && (access.Error == nil || access.Error.Code == reserr.CodeAccessDenied) {
@@ -1015,6 +1030,15 @@ func (s *Subscription) loadAccess(cb func(*rescache.Access), t *rescache.Throttl
 
 				cbs := s.accessCallbacks
 				s.flags &= ^flagAccessCalled
+				// The access was invalidated after the request was sent:
+				// ask again, with the current token.
+				if epoch != s.accessEpoch {
+					s.accessCallbacks = nil
+					for _, cb := range cbs {
+						s.loadAccess(cb, nil)
+					}
+					return
+				}
 				// Only store in case of an actual result or system.accessDenied error,
 				// and never for a subscription that failed to load.
 				if s.err == nil && (access.Error == nil || access.Error.Code == reserr.CodeAccessDenied) {
